@@ -4,7 +4,7 @@ import json
 def run(ctx):
     # design model: one-unit-pivot elimination steps with explicit formulas, all small complexes, all pivot sequences
     ctx.tlc_mc("MC_ChainRed", "MC_ChainRed.cfg", workers=8, timeout=1500)
-    ctx.tlc_mc("MC_LinAlg", "MC_LinAlg.cfg", workers=1, coverage=False, timeout=900)
+    ctx.tlc_mc("MC_LinAlg", "MC_LinAlg.cfg", workers=1, coverage=False, timeout=900, cache=True)
     trace = ctx.path("trace.ndjson")
     summ, _, _ = ctx.yv("c08", "record", "--seed", ctx.seed, "--tier", ctx.tier, "--out", trace, timeout=3000)
     rec = summ["record"]
